@@ -22,6 +22,13 @@ META = {
                    '(just below min, min, max, just above max, far out, inside, non-member, fractional, float-form, sentinels) the real '
                    'ReadParameter, the class\'s own read_parameters loop, whole Model/HIP_RA_X reads per configuration family and the public '
                    'clients are executed and compared INSIDE Coq with the model and with spec_ok.'),
+    'level_text_round2': ('Round 2 (Model/TokenReader.v, 10 more theorems): the TEXT of a value - canonical integers, other number notations, '
+                          'non-numeric text, blanks, nan / inf - through ReadParameter and through the option conversions of the read_parameters methods '
+                          '(strict from_input_string / else-branch / from_int, found by an ast scan and regenerated as Gen/OptionTable with the enum '
+                          'members), and the boolean word lists.  Proved: numbers in any notation inherit the range theorems; +-inf and blank values are '
+                          'rejected by name; every AllowableRange value of an option has an enum member.  Refuted and recorded: nan is stored by every '
+                          'float parameter; junk text and int nan/inf die in float()/int() without the parameter name; members written "4.0" die in '
+                          'from_input_string (anonymous for 3 enums); Fracture Shape "2.0" becomes member 4; any non-listed boolean text is True.'),
     'level_note': ('Trusted: Coq kernel + vm_compute; the generator and harness (unverified Python) that dump the declarations and observe '
                    'the outcome of the real calls; CPython float()/int() parsing (the model starts from the parsed double). nan is outside the '
                    'model (Q): the pinned reader accepts it for float parameters because every comparison with nan is False (observation).'),
@@ -39,14 +46,14 @@ META = {
                      'hand-written model coq/Model/RangeReader.v tied to Parameter.ReadParameter and the read_parameters loops by '
                      'kernel-evaluated comparison on every parameter (tools/props/C07.py, tools/lib/rangeprobe.py, tools/gen/paramtable.py: '
                      'unverified Python)'],
-    'modelled': ['Parameter.ReadParameter (intParameter and floatParameter branches)', 'Parameter declarations (Min, Max, AllowableRange, '
+    'modelled': ['Parameter.ReadParameter (intParameter, floatParameter and boolParameter branches; nan / inf / text / blank inputs)', 'the option special cases of every read_parameters (from_input_string / else chain / coerce_int_params_to_enum_values) as regenerated Gen/OptionTable', 'Parameter declarations (Min, Max, AllowableRange, '
                  'DefaultValue, value) as regenerated table rows', 'CPython float()/int() (input of the model is the parsed double)'],
     'assumptions': ['float(sValue) and int() are CPython\'s; comparisons of doubles are exact comparisons of rationals (no rounding involved)',
                     'unit suffixes in the value (ConvertUnits) are C06, list/bool/str parameters and later physical rejections are outside C07'],
     'fingerprint': [('src/geophires_x/Parameter.py', 'ReadParameter'), ('src/geophires_x/Reservoir.py', 'Reservoir.read_parameters'),
                     ('src/geophires_x/WellBores.py', 'WellBores.read_parameters'), ('src/geophires_x/SurfacePlant.py', 'SurfacePlant.read_parameters'),
                     ('src/geophires_x/Economics.py', 'Economics.read_parameters'), ('src/hip_ra_x/hip_ra_x.py', 'HIP_RA_X.read_parameters'),
-                    ('src/geophires_x/Model.py', 'Model.read_parameters'), ('src/geophires_x_client/__init__.py', 'GeophiresXClient.get_geophires_result')],
+                    ('src/geophires_x/Model.py', 'Model.read_parameters'), ('src/geophires_x/Parameter.py', 'coerce_int_params_to_enum_values'), ('src/geophires_x_client/__init__.py', 'GeophiresXClient.get_geophires_result')],
     'exhaustive': True,
 }
 GENERATORS = (paramtable.gen_paramtable, paramtable.gen_optiontable)
@@ -480,10 +487,49 @@ def search(ctx):
     judge(ctx, 'search', cases, compare_model=False)
 
 
+def replay_text(ctx, inp, k, pkgs):
+    """round-2 layers: the text of a value"""
+    model, srcs, rows, idx = live(ctx)
+    p = dict(srcs)[k[0]].ParameterDict[k[1]]
+    if inp['layer'] == 'option-table':
+        opts = paramtable.option_rows()
+        bad = fw.kernel_eval(ctx, 'option-table', TREQ, lambda lo, hi: 'bad_options param_table option_table', len(opts), shard=len(opts))
+        fails = any(opts[j]['cls'] == k[0] and opts[j]['name'] == k[1] for j in bad)
+        print('option_ok on the regenerated row:', not fails)
+        print('property', 'VIOLATED' if fails else 'holds', 'on this input')
+        return 1 if fails else 0
+    if inp['layer'].startswith('bool-'):
+        b = rp.observe_bool(p, k[1], inp['s'], model)
+        lit = f'({paramtable.cs(inp["s"])}, ' + ('None' if b is None else f'Some {"true" if b else "false"}') + ')'
+        ok = [not fw.kernel_eval(ctx, 'replay-bool', TREQ, lambda lo, hi, f=f: f'run_bcases {f} [{lit}]', 1, open_scope='string_scope') for f in ('bcase_agrees', 'bcase_spec')]
+        print(f'{k[1]} = {inp["s"]!r}: implementation stores {b} | Coq read_bool agrees: {ok[0]} | property (documented word -> that boolean, else rejected): {ok[1]}')
+        print('property', 'holds' if ok[1] else 'VIOLATED', 'on this input')
+        return 0 if ok[1] else 1
+    o = next((x for x in paramtable.option_rows() if x['cls'] == k[0] and x['name'] == k[1]), {'strict': False, 'named': False, 'else_to': None})
+    base = dict(i=idx[k], s=inp['s'], tag=inp.get('tag', '?'), kind=inp.get('kind', 'int'), cls=k[0], name=k[1])
+    obs = [('tok-reader', dict(base, strict=False, o=rp.observe_tok_reader(p, k[1], inp['s'], model))),
+           ('tok-module', dict(base, strict=o['strict'], named=o['named'], else_to=o['else_to'], o=rp.observe_tok_module(*pkgs[k[0]], model, k[1], inp['s'])))]
+    fam = next((f for f in families() if f[0] == inp.get('family')), None)
+    if fam:
+        obs.append(('tok-family', dict(base, strict=o['strict'], named=o['named'], else_to=o['else_to'], family=fam[0],
+                                       o=rp.family_read_tok(('g', fam[2], k[1], inp['s'], str(ctx.scratch)))[1])))
+    bad = 0
+    for layer, c in obs:
+        n0 = len(ctx.violations)
+        tjudge(ctx, layer, [c], compare_model=layer != 'tok-family')
+        new = ctx.violations[n0:]
+        print(f'{layer:10s} {k[1]} = {inp["s"]!r}: implementation: {rp.OUTKIND[c["o"][0]]} {c["o"][1:] or ""} | Coq model agrees: '
+              f'{not any(v.kind == "corr" for v in new)} | property: {"VIOLATED" if any(v.kind == "property" for v in new) else "holds"}')
+        bad += any(v.kind == 'property' for v in new)
+    print('property', 'VIOLATED' if bad else 'holds', 'on this input')
+    return 1 if bad else 0
+
+
 def replay(ctx, data):
     inp = data['input']
-    paramtable.gen_paramtable(ctx)
-    paramtable.build_gen(ctx, ('Gen/ParamTable.vo', 'Model/RangeReader.vo'))
+    for g in GENERATORS:
+        g(ctx)
+    paramtable.build_gen(ctx, ('Gen/ParamTable.vo', 'Gen/OptionTable.vo', 'Model/TokenReader.vo'))
     model, srcs, rows, idx = live(ctx)
     k = (inp['cls'], inp['name'])
     if k not in idx:
@@ -497,8 +543,10 @@ def replay(ctx, data):
         print('row_ok on the regenerated row:', not fails)
         print('property', 'VIOLATED' if fails else 'holds', 'on this input')
         return 1 if fails else 0
-    s, v = inp['s'], F(float(inp['s']))
     pkgs = {c.__name__: (pkg, c) for pkg, c in paramtable.module_classes()}
+    if str(inp.get('layer', '')).startswith(('tok-', 'bool-', 'option-')):
+        return replay_text(ctx, inp, k, pkgs)
+    s, v = inp['s'], F(float(inp['s']))
     alias = inp.get('alias')
     obs = {'reader': rp.observe_reader(dict(srcs)[k[0]].ParameterDict[k[1]], k[1], s, model),
            'module': rp.observe_module(*pkgs[k[0]], model, k[1], s, key=alias)}
